@@ -133,6 +133,30 @@ PROPS = {
         level_note='Trusted in addition: derivatives of element-wise functions (the Jacobian theorems are stated for any matrix with the '
                    'proved sparsity pattern and diagonal), PyTorch autograd as the numeric oracle. Lean kernel, Mathlib, harness, driver '
                    'as for the other checks.',
+    ),    'C19': dict(
+        module='c19',
+        modules=['DeeprobModel.Props.C19', 'DeeprobModel.Oblig.C19'],
+        theorems=['Deeprob.C19.moment_exact', 'Deeprob.C19.momentNet_exact', 'Deeprob.C19.moment_exact_abstract', 'Deeprob.C19.moment_zero',
+                  'Deeprob.C19.moment_negative', 'Deeprob.C19.bernoulli_moment', 'Deeprob.Oblig.C19.variance_is_central2',
+                  'Deeprob.Oblig.C19.skewness_is_central3', 'Deeprob.Oblig.C19.skewness_sigma', 'Deeprob.Oblig.C19.kurtosis_is_excess',
+                  'Deeprob.Oblig.C19.moment_guard'],
+        fragments=['moments.variance', 'moments.skewness', 'moments.kurtosis', 'skewnessNum', 'momentRejects'],
+        rule='valid circuits (trees and DAGs) with root scope {0..n-1} in any order over Bernoulli / Categorical / Gaussian / '
+             'Uniform / Isotonic leaves; orders 0-4 and a negative order; raw moments against the exact model value (closed-form leaf '
+             'moments), derived statistics against the textbook formulas evaluated on the implementation\'s own raw moments with a '
+             'condition-number-scaled float32 tolerance (variables with variance < 1e-3 skipped); non-trivial = inner node; '
+             'distinct = distinct node table',
+    ),    'C20': dict(
+        module='c20',
+        modules=['DeeprobModel.Props.C20'],
+        theorems=['Deeprob.C20.posterior_rows_normalised', 'Deeprob.C20.posterior_def', 'Deeprob.C20.softmax_is_posterior',
+                  'Deeprob.C20.predict_is_argmax', 'Deeprob.C20.predict_is_argmax_log', 'Deeprob.C20.old_predict_proba_wrong'],
+        fragments=[],
+        rule='classifiers fitted on data with 2-5 classes (binary and Gaussian features) queried with 1, K, K+3 and more rows (30% '
+             'missing features): shape, row sums, every entry against the exact posterior computed by the model from the class '
+             'sub-circuit values, predict against the arg-max (margin rule), sampling with given labels / requested counts; density '
+             'estimators: log-probabilities, MPE and (conditional) samples against the wrapped circuit; non-trivial = every fitted '
+             'model; distinct = distinct learned circuit',
     ),
 }
 
